@@ -26,6 +26,7 @@ fn main() {
     let mut regress = PathBuf::from("/verif/replays/regress");
     let mut scratch = PathBuf::from("/verif/target/scratch");
     let mut cases = None;
+    let mut isolate = false;
     let mut positional = Vec::new();
     let mut i = 3;
     while i < args.len() {
@@ -51,11 +52,12 @@ fn main() {
             "--regress" => regress = PathBuf::from(val()),
             "--scratch" => scratch = PathBuf::from(val()),
             "--cases" => cases = Some(val().parse().unwrap_or_else(|_| usage())),
+            "--isolate" => isolate = true,
             _ => positional.push(args[i].clone()),
         }
         i += 1;
     }
-    let opts = Opts { tier, seed, cfg: cfg.clone(), shards: shards.max(1), out, known, replays_dir: replays, regress_dir: regress, scratch: scratch.clone(), cases_override: cases };
+    let opts = Opts { tier, seed, cfg: cfg.clone(), shards: shards.max(1), out, known, replays_dir: replays, regress_dir: regress, scratch: scratch.clone(), cases_override: cases, isolate };
     let code = match cmd {
         "run" => props::dispatch_run(&id, &opts),
         "worker" => props::dispatch_worker(&id),
